@@ -486,6 +486,11 @@ func runDelivery(c DeliveryCase) (*dStats, error) {
 			if err := flush(); err != nil {
 				return st, err
 			}
+			if c.Direction == "record" {
+				// (flush only waits for reliable readers; the recording client's own queue has to be empty as well, or the
+				// dropped packets are a sequence gap - across the wrap an unresolvable one for a secure reader joining there)
+				quiesce()
+			}
 			w.H.RefusePause.Store(true)
 			_, perr := who.Pause()
 			w.H.RefusePause.Store(false)
